@@ -141,6 +141,7 @@ func runC13(c *eng.Ctx) {
 	runC13CloseVsClose(c, next)
 	runC13RootScope(c, next)
 	runC13Waiters(c, next)
+	runC13Reentrant(c, next)
 	runJoin(c, "C13", next)
 	// (b) overlaps
 	reps := c.Pick(1, 6)
